@@ -2,12 +2,12 @@
    one file, LIFTED TO WHOLE PROJECTS: whatever the file system, the oracle and the include tree,
    scanProject never ends in one of the scanner's impossible states - dispatch to a missing step
    function, a step function falling off its end, a pop of the empty return-state stack, a pop of the
-   empty lexeme-event stack, a lexeme event without a lexeme type.
+   empty lexeme-event stack, a lexeme event without a lexeme type, a shift off the empty event queue.
    The lifting is generic: any invariant of scanner configurations that holds initially and is kept
    by Next() holds, at every moment of the run, for the scanner of the current file AND for every
    suspended scanner (each relative to its own file's content, which never changes once opened). *)
 From JS Require Import Base Bytes Scanner ScanRun Directive Core C14Proofs IncludeRoundTrip.
-From JS Require ScannerProg IncludeName ScanTotal StackSafe EventSafe.
+From JS Require ScannerProg IncludeName ScanTotal StackSafe EventSafe FindsSafe.
 From Coq Require Import Lia.
 Open Scope Z_scope.
 
@@ -180,6 +180,109 @@ Section Lift.
     - injection H as <- _. exact NK.
   Qed.
 
+  (* whatever processInclude answers, the state it hands back is the includer with the scanner
+     configuration after the parameter (and a longer access log) *)
+  Lemma include_other_state st kw r x : all_scanners st -> pinc st kw = (r, x) ->
+    (forall sI, r <> COk sI) -> all_scanners x.
+  Proof.
+    intros AS H NOK. pose proof (snext_keeps st AS) as NK. unfold process_include in H.
+    destruct (snext st) as [[ol cf]|e0|p0|]; try (injection H as _ <-; exact AS).
+    destruct ol as [pl|]; [|injection H as _ <-; exact NK].
+    destruct (lk pl); try (injection H as _ <-; exact NK).
+    destruct (lex_value (set_conf st cf) pl) as [raw|]; [|injection H as _ <-; exact NK].
+    destruct (beq (unquote raw) []); [injection H as _ <-; exact NK|].
+    destruct (validate_include IncludeName.include_checks (unquote raw)) as [[m|]|]; try (injection H as _ <-; exact NK).
+    cbn zeta in H.
+    assert (LG : forall w pth, all_scanners (add_log (set_conf st cf) w pth)).
+    { intros w pth. exact (all_same _ _ eq_refl eq_refl eq_refl eq_refl NK). }
+    match type of H with context [stat_path fs ?pp] => destruct (stat_path fs pp) end;
+      try (injection H as _ <-; apply LG).
+    match type of H with (if ?c then _ else _) = _ => destruct c end.
+    - injection H as _ <-. exact (all_same _ _ eq_refl eq_refl eq_refl eq_refl (LG _ _)).
+    - injection H as <- _. exfalso. eapply NOK. reflexivity.
+  Qed.
+
+  (* the state the run stops in (with a forest, an error or a panic value) satisfies the invariant *)
+  Theorem final_state_scanners :
+    forall fuel st, all_scanners st ->
+      match sproj fuel st with
+      | SDone stx | SErr _ stx | SPanic _ stx => all_scanners stx
+      | SFuel => True
+      end.
+  Proof.
+    induction fuel as [|fuel IH]; intros st AS; cbn [scan_project]; [exact I|].
+    pose proof (snext_keeps st AS) as NK.
+    destruct (snext st) as [[[l|] cf]|e0|p0|] eqn:Es; try exact AS; try exact I.
+    - destruct (is_include (set_conf st cf) l).
+      + destruct (pinc (set_conf st cf) l) as [r st2] eqn:Ei.
+        destruct r as [sI|e1|p1|].
+        * apply IH. eapply include_keeps; [exact NK|exact Ei].
+        * eapply include_other_state; [exact NK|exact Ei|discriminate].
+        * eapply include_other_state; [exact NK|exact Ei|discriminate].
+        * exact I.
+      + unfold lift. destruct (core_next (set_conf st cf) l) as [s1|e1|p1|] eqn:En; try exact NK; try exact I.
+        destruct (core_next_frame _ _ _ En) as [F [S [L Cf]]].
+        apply IH. exact (all_same _ _ F S L Cf NK).
+    - unfold lift. destruct (process_eof (set_conf st cf)) as [stE|e1|p1|] eqn:Ee; try exact NK; try exact I.
+      pose proof (process_eof_is_process_current _ _ Ee) as Ec.
+      destruct (process_current_frame _ _ Ec) as [[F [S [L Cf]]] _].
+      pose proof (all_same _ _ F S L Cf NK) as ASE.
+      destruct (cs_stack stE) as [|it rest] eqn:Ek; [exact ASE|].
+      apply IH. destruct ASE as [A [B [Vc Vs]]].
+      rewrite Ek in B, Vs. unfold all_scanners, resume, file_content, valid_ids in *. cbn [cs_file cs_conf cs_stack cs_files].
+      pose proof (Forall_inv B) as B1. pose proof (Forall_inv_tail B) as B2.
+      pose proof (Forall_inv Vs) as V1. pose proof (Forall_inv_tail Vs) as V2.
+      split; [exact B1|]. split; [exact B2|]. split; [exact V1|exact V2].
+  Qed.
+
+  (* every state on which Next() is invoked during the run (the loop's own calls and the one
+     processInclude makes for the file name) *)
+  Fixpoint next_calls (fuel : nat) (st : cstate) : list cstate :=
+    match fuel with
+    | O => []
+    | S f =>
+        st ::
+        match snext st with
+        | ROk (Some l, cf) =>
+            let st' := set_conf st cf in
+            if is_include st' l then
+              st' :: match pinc st' l with (COk sI, _) => next_calls f sI | _ => [] end
+            else match core_next st' l with COk s1 => next_calls f s1 | _ => [] end
+        | ROk (None, cf) =>
+            match process_eof (set_conf st cf) with
+            | COk stE => match cs_stack stE with [] => [] | it :: rest => next_calls f (resume stE it rest) end
+            | _ => []
+            end
+        | _ => []
+        end
+    end.
+
+  Theorem every_next_call_is_made_under_the_invariant :
+    forall fuel st, all_scanners st -> Forall all_scanners (next_calls fuel st).
+  Proof.
+    induction fuel as [|fuel IH]; intros st AS; cbn [next_calls]; [constructor|].
+    constructor; [exact AS|].
+    pose proof (snext_keeps st AS) as NK.
+    destruct (snext st) as [[[l|] cf]|e0|p0|] eqn:Es; try constructor.
+    - destruct (is_include (set_conf st cf) l).
+      + constructor; [exact NK|].
+        destruct (pinc (set_conf st cf) l) as [[sI|e1|p1|] st2] eqn:Ei; try constructor.
+        apply IH. eapply include_keeps; [exact NK|exact Ei].
+      + destruct (core_next (set_conf st cf) l) as [s1|e1|p1|] eqn:En; try constructor.
+        destruct (core_next_frame _ _ _ En) as [F [S [L Cf]]].
+        apply IH. exact (all_same _ _ F S L Cf NK).
+    - destruct (process_eof (set_conf st cf)) as [stE|e1|p1|] eqn:Ee; try constructor.
+      pose proof (process_eof_is_process_current _ _ Ee) as Ec.
+      destruct (process_current_frame _ _ Ec) as [[F [S [L Cf]]] _].
+      pose proof (all_same _ _ F S L Cf NK) as ASE.
+      destruct (cs_stack stE) as [|it rest] eqn:Ek; [constructor|].
+      apply IH. destruct ASE as [A [B [Vc Vs]]].
+      rewrite Ek in B, Vs. unfold all_scanners, resume, file_content, valid_ids in *. cbn [cs_file cs_conf cs_stack cs_files].
+      pose proof (Forall_inv B) as B1. pose proof (Forall_inv_tail B) as B2.
+      pose proof (Forall_inv Vs) as V1. pose proof (Forall_inv_tail Vs) as V2.
+      split; [exact B1|]. split; [exact B2|]. split; [exact V1|exact V2].
+  Qed.
+
   Lemma initial_all rn rc : all_scanners (initial_cstate I0 rn rc).
   Proof.
     unfold all_scanners, initial_cstate, file_content, valid_ids. cbn [cs_conf cs_file cs_files cs_stack List.length N.to_nat nth_error].
@@ -191,7 +294,7 @@ End Lift.
 Theorem project_scan_never_reaches_an_impossible_scanner_state :
   forall fs olen root_name root_content fuel p stx,
     scan_project P NLc WSc fs olen I0 fuel (initial_cstate I0 root_name root_content) = SPanic (CPScanner p) stx ->
-    p <> PNoState /\ p <> PFallthrough /\ p <> PStepStackEmpty /\ p <> PEventStackEmpty /\ p <> PLexemeType.
+    p <> PNoState /\ p <> PFallthrough /\ p <> PStepStackEmpty /\ p <> PEventStackEmpty /\ p <> PLexemeType /\ p <> PFindsEmpty.
 Proof.
   intros fs olen rn rc fuel p stx H.
   assert (A : ~ (p = PNoState \/ p = PFallthrough)).
@@ -218,5 +321,71 @@ Proof.
       destruct (next P NLc WSc data ol cf) as [[o cf']| |q|]; cbn [EventSafe.fineE snd] in N; auto.
       intros [-> | ->]; exact N.
     - intros data. exists []. split; [reflexivity|split; [constructor|left; vm_compute; reflexivity]]. }
+  assert (D : ~ (p = PFindsEmpty)).
+  { eapply (project_scanner_panics_are_not_bad fs olen (fun _ _ => True) (fun q => q = PFindsEmpty));
+      [| |apply initial_all|exact H].
+    - intros data. exact Logic.I.
+    - intros data ol cf _. pose proof (FindsSafe.next_never_shifts_an_empty_queue P NLc WSc data ol cf) as N.
+      destruct (next P NLc WSc data ol cf) as [[o cf']| |q|]; auto. intros ->. apply N. reflexivity.
+    - intros data. exact Logic.I. }
   repeat split; intros E; subst p; tauto.
+Qed.
+
+(* C07 for whole projects: wherever the run of scanProject stops - in the root file or in any
+   included file, after any number of suspensions and resumptions - an error Next() raises there
+   points into the file being scanned (0 <= index <= length of THAT file) *)
+From JS Require ErrInFile.
+Theorem project_scanner_errors_point_into_their_file :
+  forall fs olen root_name root_content fuel,
+    match scan_project P NLc WSc fs olen I0 fuel (initial_cstate I0 root_name root_content) with
+    | SDone stx | SErr _ stx | SPanic _ stx =>
+        forall e0, scan_next P NLc WSc olen stx = RErr e0 -> ErrInFile.in_file (file_content stx (cs_file stx)) e0
+    | SFuel => True
+    end.
+Proof.
+  intros fs olen rn rc fuel.
+  set (Iv := fun data cf => EventSafe.Inv2 data EventSafe.inferredSg cf).
+  assert (II : forall data, Iv data (init_conf I0)).
+  { intros data. exists []. split; [reflexivity|split; [constructor|left; vm_compute; reflexivity]]. }
+  assert (NX : forall data ol cf, Iv data cf ->
+            match next P NLc WSc data ol cf with ROk (_, cf') => Iv data cf' | RPanic _ => ~ False | _ => True end).
+  { intros data ol cf Hc. pose proof (EventSafe.next_events P NLc WSc data ol EventSafe.inferredSg EventSafe.inferred_ok cf Hc) as N.
+    destruct (next P NLc WSc data ol cf) as [[o cf']| |q|]; cbn [EventSafe.fineE snd] in N; auto. }
+  pose proof (final_state_scanners fs olen Iv (fun _ => False) II NX fuel _ (initial_all Iv II rn rc)) as F.
+  assert (G : forall stx, all_scanners Iv stx ->
+            forall e0, scan_next P NLc WSc olen stx = RErr e0 -> ErrInFile.in_file (file_content stx (cs_file stx)) e0).
+  { intros stx [A _] e0 He. unfold scan_next in He.
+    pose proof (ErrInFile.next_errs (file_content stx (cs_file stx)) (olen (file_name stx (cs_file stx))) (cs_conf stx) A) as NE.
+    rewrite He in NE. exact NE. }
+  destruct (scan_project P NLc WSc fs olen I0 fuel (initial_cstate I0 rn rc)); try exact I; apply G; exact F.
+Qed.
+
+(* C12 for whole projects: every lexeme Next() delivers during a run of scanProject - in the root
+   file or any included file, including the INCLUDE keyword and its file name - has a well-formed
+   extent (begin <= end + 1), and no call of Next() made during the run ends in one of the five
+   impossible scanner states *)
+From JS Require ExtentSafe.
+Theorem project_lexeme_extents_are_never_inverted :
+  forall fs olen root_name root_content fuel,
+    Forall (fun st => match scan_next P NLc WSc olen st with
+                      | ROk (Some l, _) => lb l <= le l + 1
+                      | _ => True
+                      end)
+           (next_calls fs olen fuel (initial_cstate I0 root_name root_content)).
+Proof.
+  intros fs olen rn rc fuel.
+  set (Iv := fun data cf => ExtentSafe.Inv2 data ExtentSafe.inferredSg cf).
+  assert (II : forall data, Iv data (init_conf I0)).
+  { intros data. exists []. split; [reflexivity|split; [constructor|left]]. exists []. split; [vm_compute; reflexivity|constructor]. }
+  assert (NX : forall data ol cf, Iv data cf ->
+            match next P NLc WSc data ol cf with ROk (_, cf') => Iv data cf' | RPanic _ => ~ False | _ => True end).
+  { intros data ol cf Hc. pose proof (ExtentSafe.next_extents P NLc WSc data ol ExtentSafe.inferredSg ExtentSafe.inferred_ok cf Hc) as N.
+    destruct (next P NLc WSc data ol cf) as [[o cf']| |q|]; cbn [ExtentSafe.fineL] in N; auto. exact (proj1 N). }
+  pose proof (every_next_call_is_made_under_the_invariant fs olen Iv (fun _ => False) II NX fuel _ (initial_all Iv II rn rc)) as F.
+  eapply Forall_impl; [|exact F].
+  intros st [A _]. unfold scan_next.
+  pose proof (ExtentSafe.next_extents P NLc WSc (file_content st (cs_file st)) (olen (file_name st (cs_file st)))
+                ExtentSafe.inferredSg ExtentSafe.inferred_ok (cs_conf st) A) as N.
+  destruct (next P NLc WSc _ _ (cs_conf st)) as [[[l|] cf']| |q|]; cbn [ExtentSafe.fineL] in N; auto.
+  exact (proj2 N).
 Qed.
